@@ -66,21 +66,202 @@ def generate(repo):
                     f'def {name} (S0 S1 : Int) : {ty} :=\n  {lean_val(r)}\n')
     return '\n'.join(defs), ['propagate_fft: fft_shape = (S0, S1); only the scratch branch is translated']
 
+RC = '{R : Type} [Add R] [Sub R] [Mul R] [Div R]'
+
+def _rx(e, env):
+    """float/int expression over names, constant subscripts of pairs, attributes, + - * /, pairs (element-wise with scalars)"""
+    if isinstance(e, ast.Name):
+        if e.id not in env: raise Refuse(f'unknown name {e.id}')
+        return env[e.id]
+    if isinstance(e, ast.Attribute):
+        k = ast.unparse(e)
+        if k not in env: raise Refuse(f'unknown attribute {k}')
+        return env[k]
+    if isinstance(e, ast.Subscript):
+        b = _rx(e.value, env)
+        if not (isinstance(b, list) and isinstance(e.slice, ast.Constant) and e.slice.value in (0, 1)): raise Refuse('subscript ' + ast.unparse(e))
+        return b[e.slice.value]
+    if isinstance(e, ast.Tuple):
+        if len(e.elts) != 2: raise Refuse('only pairs')
+        return [_rx(x, env) for x in e.elts]
+    if isinstance(e, ast.BinOp):
+        ops = {ast.Add: '+', ast.Sub: '-', ast.Mult: '*', ast.Div: '/'}
+        if type(e.op) not in ops: raise Refuse('operator ' + type(e.op).__name__ + ' in ' + ast.unparse(e)[:40])
+        a, b, o = _rx(e.left, env), _rx(e.right, env), ops[type(e.op)]
+        if isinstance(a, list) or isinstance(b, list):
+            a2 = a if isinstance(a, list) else [a, a]; b2 = b if isinstance(b, list) else [b, b]
+            return [f'({x} {o} {y})' for x, y in zip(a2, b2)]
+        return f'({a} {o} {b})'
+    if isinstance(e, ast.Call):
+        f = ast.unparse(e.func)
+        if f in ('tuple', 'np.asarray') and len(e.args) == 1 and not e.keywords: return _rx(e.args[0], env)
+        if f == 'np.broadcast_to' and len(e.args) == 2 and ast.unparse(e.args[1]) == '(2,)':
+            v = _rx(e.args[0], env); return v if isinstance(v, list) else [v, v]
+        if f == 'np.max' and len(e.args) == 1 and ast.unparse(e.args[0]) + '#max' in env: return env[ast.unparse(e.args[0]) + '#max']
+    raise Refuse('expression ' + ast.unparse(e)[:60])
+
+def _bx(e, env, cmpf):
+    """Boolean expression: comparisons of scalars/pairs (element-wise), all/any/np.all/np.any over a pair, not.
+    `cmpf(op, a, b)` renders one scalar comparison."""
+    if isinstance(e, ast.UnaryOp) and isinstance(e.op, ast.Not):
+        v = _bx(e.operand, env, cmpf)
+        if isinstance(v, list): raise Refuse('not of a vector')
+        return f'(!{v})'
+    if isinstance(e, ast.Compare) and len(e.ops) == 1:
+        ops = {ast.Gt: '>', ast.GtE: '≥', ast.Lt: '<', ast.LtE: '≤'}
+        if type(e.ops[0]) not in ops: raise Refuse('comparison ' + ast.unparse(e))
+        a, b = _rx(e.left, env), _rx(e.comparators[0], env)
+        if isinstance(a, list) or isinstance(b, list):
+            a2 = a if isinstance(a, list) else [a, a]; b2 = b if isinstance(b, list) else [b, b]
+            return [cmpf(ops[type(e.ops[0])], x, y) for x, y in zip(a2, b2)]
+        return cmpf(ops[type(e.ops[0])], a, b)
+    if isinstance(e, ast.Call) and ast.unparse(e.func) in ('all', 'any', 'np.all', 'np.any') and len(e.args) == 1:
+        v = _bx(e.args[0], env, cmpf)
+        if not isinstance(v, list): return v
+        return '(' + (' && ' if ast.unparse(e.func).endswith('all') else ' || ').join(v) + ')'
+    raise Refuse('condition ' + ast.unparse(e)[:60])
+
+def _pair(v):
+    if not isinstance(v, list): raise Refuse('expected a pair')
+    return f'({v[0]}, {v[1]})'
+
+def _call_args(call, callee):
+    params = [a.arg for a in callee.args.args]
+    got = {}
+    for i, a in enumerate(call.args): got[params[i]] = a
+    for k in call.keywords:
+        if k.arg in got or k.arg not in params: raise Refuse('call arguments of ' + ast.unparse(call)[:60])
+        got[k.arg] = k.value
+    if set(got) != set(params): raise Refuse('call arity of ' + ast.unparse(call)[:60])
+    return [got[p] for p in params]
+
+def _flat(args):
+    out = []
+    for a in args: out += a if isinstance(a, list) else [a]
+    return ' '.join(out)
+
+def _wiring(mod):
+    """call-site wiring, guards, output shape and metadata of propagate_fft, and scratch_shape"""
+    fns = {n.name: n for n in ast.walk(mod) if isinstance(n, ast.FunctionDef)}
+    fp, ff, fss = fns['propagate_fft'], fns['_fft_shape'], fns['scratch_shape']
+    out = []
+    WP = 'wavefront_pixelscale_0 wavefront_pixelscale_1 pixelscale_0 pixelscale_1 wavefront_focal_length wavefront_wavelength oversample'
+    env = {'wavefront.pixelscale': ['wavefront_pixelscale_0', 'wavefront_pixelscale_1'], 'pixelscale': ['pixelscale_0', 'pixelscale_1'],
+           'wavefront.focal_length': 'wavefront_focal_length', 'wavefront.wavelength': 'wavefront_wavelength', 'oversample': 'oversample'}
+    rebind = [n for n in fp.body if isinstance(n, ast.Assign) and ast.unparse(n.targets[0]) == 'pixelscale']
+    if len(rebind) != 1 or ast.unparse(rebind[0].value) != 'np.broadcast_to(pixelscale, (2,))': raise Refuse('propagate_fft: pixelscale is no longer broadcast to a pair')
+    # ---- _fft_shape call site
+    call = [n for n in ast.walk(fp) if isinstance(n, ast.Call) and ast.unparse(n.func) == '_fft_shape']
+    if len(call) != 1: raise Refuse('propagate_fft: expected one _fft_shape call')
+    holder = [n for n in fp.body if isinstance(n, ast.Assign) and n.value is call[0]]
+    if len(holder) != 1 or ast.unparse(holder[0].targets[0]) not in ('(fft_shape, prop_wavelength)', 'fft_shape, prop_wavelength'):
+        raise Refuse('propagate_fft: result of _fft_shape is no longer bound to (fft_shape, prop_wavelength)')
+    args = [_rx(x, env) for x in _call_args(call[0], ff)]            # in the order (dx, du, z, wavelength, oversample) of _fft_shape
+    out.append(f'/-- translated from `propagate.py:propagate_fft` (line {call[0].lineno}): the `alpha` of `_fft_shape` in terms of the wavefront\n'
+               f'attributes and call arguments (`fft_shape = round(1/alpha)`) -/\n'
+               f'def fftShapeAlpha {RC} ({WP} : R) : R × R :=\n  fftAlphaCall {_flat(args)}\n')
+    out.append(f'/-- translated from `propagate.py:propagate_fft` (line {call[0].lineno}): the per-axis wavelengths whose minimum is reported -/\n'
+               f'def fftReportedWavelengths {RC} (fft_shape_0 fft_shape_1 {WP} : R) : R × R :=\n'
+               f'  fftWavelengths fft_shape_0 fft_shape_1 {_flat([args[0], args[1], args[2], args[4]])}\n')
+    # ---- shape branches
+    br = [n for n in fp.body if isinstance(n, ast.If) and ast.unparse(n.test) == 'shape is None']
+    if len(br) != 1: raise Refuse('propagate_fft: `if shape is None:` not found')
+    ienv = {'fft_shape': ['fft_shape_0', 'fft_shape_1'], 'oversample': 'oversample', 'shape': ['shape_0', 'shape_1']}
+    so_none = [n for n in br[0].body if isinstance(n, ast.Assign) and ast.unparse(n.targets[0]) == 'shape_out']
+    if len(so_none) != 1: raise Refuse('propagate_fft: shape_out (shape is None) not found')
+    out.append(f'/-- translated from `propagate.py:propagate_fft` (line {so_none[0].lineno}): `shape_out` when `shape is None` -/\n'
+               f'def fftShapeOutNone (fft_shape_0 fft_shape_1 oversample : Int) : Int × Int :=\n  {_pair(_rx(so_none[0].value, ienv))}\n')
+    els = br[0].orelse
+    if len(els) != 2 or ast.unparse(els[0]) != 'shape = tuple(np.broadcast_to(shape, (2,)))' or not isinstance(els[1], ast.If):
+        raise Refuse('propagate_fft: explicit-shape branch changed')
+    g = els[1]
+    if not (isinstance(g.body[0], ast.Raise) and 'ValueError' in ast.unparse(g.body[0]) and len(g.orelse) == 1): raise Refuse('propagate_fft: shape guard changed')
+    cmpR = lambda op, a, b: {'>': f'(gt {a} {b})', '<': f'(gt {b} {a})', '≥': f'(!(gt {b} {a}))', '≤': f'(!(gt {a} {b}))'}[op]
+    out.append(f'/-- translated from `propagate.py:propagate_fft` (line {g.lineno}): the guard that refuses an explicit shape (true = ValueError);\n'
+               f'`gt a b` is the comparison `a > b` of the scalars (floats in the code) -/\n'
+               f'def fftShapeTooBig {RC} (gt : R → R → Bool) (shape_0 shape_1 fft_shape_0 fft_shape_1 oversample : R) : Bool :=\n'
+               f'  {_bx(g.test, ienv, cmpR)}\n')
+    so_some = g.orelse[0]
+    if not (isinstance(so_some, ast.Assign) and ast.unparse(so_some.targets[0]) == 'shape_out'): raise Refuse('propagate_fft: shape_out (explicit shape) not found')
+    out.append(f'/-- translated from `propagate.py:propagate_fft` (line {so_some.lineno}): `shape_out` for an explicit shape -/\n'
+               f'def fftShapeOutSome (shape_0 shape_1 oversample : Int) : Int × Int :=\n  {_pair(_rx(so_some.value, ienv))}\n')
+    # ---- scratch size guard
+    sb = [n for n in fp.body if isinstance(n, ast.If) and ast.unparse(n.test) == 'scratch is not None'][0]
+    sg = sb.body[0]
+    if not (isinstance(sg, ast.If) and isinstance(sg.body[0], ast.Raise) and 'ValueError' in ast.unparse(sg.body[0]) and not sg.orelse):
+        raise Refuse('propagate_fft: scratch size guard changed')
+    cmpI = lambda op, a, b: f'(decide ({a} {op} {b}))'
+    senv = {'scratch.shape': ['scratch_shape_0', 'scratch_shape_1'], 'fft_shape': ['fft_shape_0', 'fft_shape_1']}
+    out.append(f'/-- translated from `propagate.py:propagate_fft` (line {sg.lineno}): the guard that refuses a scratch buffer (true = ValueError) -/\n'
+               f'def fftScratchTooSmall (scratch_shape_0 scratch_shape_1 fft_shape_0 fft_shape_1 : Int) : Bool :=\n  {_bx(sg.test, senv, cmpI)}\n')
+    # ---- the no-scratch path and the output field
+    ns = [ast.unparse(x) for x in sb.orelse]
+    if ns != ['field = lentil.pad(wavefront.field, fft_shape)', 'field = _fft2(field)']: raise Refuse('propagate_fft: no-scratch path changed: ' + ' | '.join(ns))
+    # ---- metadata of the output
+    emp = [n for n in fp.body if isinstance(n, ast.Assign) and ast.unparse(n.targets[0]) == 'out'][0].value
+    kw = {k.arg: k.value for k in emp.keywords}
+    if not (ast.unparse(emp.func) == 'Wavefront.empty' and set(kw) == {'wavelength', 'pixelscale', 'focal_length', 'shape', 'ptype'}
+            and ast.unparse(kw['shape']) == 'shape_out' and ast.unparse(kw['ptype']) == 'ptype_out'):
+        raise Refuse('propagate_fft: Wavefront.empty(...) of the output changed')
+    menv = dict(env); menv['prop_wavelength'] = 'prop_wavelength'
+    out.append(f'/-- translated from `propagate.py:propagate_fft` (line {emp.lineno}): (wavelength, pixelscale, focal_length) of the output wavefront -/\n'
+               f'def fftOutMeta {RC} (prop_wavelength {WP} : R) : R × (R × R) × R :=\n'
+               f'  ({_rx(kw["wavelength"], menv)}, {_pair(_rx(kw["pixelscale"], menv))}, {_rx(kw["focal_length"], menv)})\n')
+    fld = [n for n in ast.walk(fp) if isinstance(n, ast.Call) and ast.unparse(n.func) == 'Field']
+    if len(fld) != 1: raise Refuse('propagate_fft: expected one Field(...) construction')
+    fkw = {k.arg: k.value for k in fld[0].keywords}
+    if set(fkw) != {'data', 'pixelscale'} or ast.unparse(fkw['data']) != 'field': raise Refuse('propagate_fft: output Field(...) changed (offset must stay the default)')
+    out.append(f'/-- translated from `propagate.py:propagate_fft` (line {fld[0].lineno}): pixelscale attribute of the output Field -/\n'
+               f'def fftFieldPixelscale {RC} ({WP} : R) : R × R :=\n  {_pair(_rx(fkw["pixelscale"], menv))}\n')
+    # ---- scratch_shape(wavelength, dx, du, z, oversample)
+    if [a.arg for a in fss.args.args] != ['wavelength', 'dx', 'du', 'z', 'oversample']: raise Refuse('scratch_shape: parameters changed')
+    body = [x for x in fss.body if not (isinstance(x, ast.Expr) and isinstance(x.value, ast.Constant))]
+    if len(body) != 4 or ast.unparse(body[3]) != 'return tuple(fft_shape)': raise Refuse('scratch_shape: body changed')
+    eenv = {'dx': 'dx', 'du': 'du', 'z': 'z', 'oversample': 'oversample', 'wavelength#max': 'max_wavelength'}
+    for st in body[:2]:
+        nm = ast.unparse(st.targets[0])
+        if nm not in ('dx', 'du'): raise Refuse('scratch_shape: unexpected assignment ' + nm)
+        eenv[nm] = _rx(st.value, {nm: [f'{nm}_0', f'{nm}_1']})
+    c3 = body[2].value
+    if not (isinstance(c3, ast.Call) and ast.unparse(c3.func) == '_fft_shape' and ast.unparse(body[2].targets[0]) in ('(fft_shape, _)', 'fft_shape, _')):
+        raise Refuse('scratch_shape: no longer returns the grid of _fft_shape')
+    sargs = [_rx(x, eenv) for x in _call_args(c3, ff)]
+    out.append(f'/-- translated from `propagate.py:scratch_shape` (line {fss.lineno}): the `alpha` whose rounded reciprocal is advertised;\n'
+               f'`max_wavelength` = `np.max(wavelength)` (scalar or list) -/\n'
+               f'def scratchShapeAlpha {RC} (dx_0 dx_1 du_0 du_1 z max_wavelength oversample : R) : R × R :=\n  fftAlphaCall {_flat(sargs)}\n')
+    return out
+
 def _has_tilt(mod):
-    """`_has_tilt(wavefront)`: `for field in wavefront.data: if field.tilt: return True` / `return False` -> any-field test.
-    The loop is translated structurally (shape checked statement by statement, anything else refused)."""
+    """`_has_tilt(wavefront)`: translated as a fold over the per-field tilt counts (`len(field.tilt)` of `wavefront.data[...]`):
+    the iterable (whole list or a constant slice of it), the truthiness test and the two return values are taken from the source"""
     fn = [n for n in ast.walk(mod) if isinstance(n, ast.FunctionDef) and n.name == '_has_tilt']
     if not fn: raise Refuse('propagate.py: _has_tilt not found')
     body = [s for s in fn[0].body if not (isinstance(s, ast.Expr) and isinstance(s.value, ast.Constant))]
-    ok = (len(body) == 2 and isinstance(body[0], ast.For) and ast.unparse(body[0].target) == 'field'
-          and ast.unparse(body[0].iter) == 'wavefront.data' and not body[0].orelse and len(body[0].body) == 1
-          and isinstance(body[0].body[0], ast.If) and ast.unparse(body[0].body[0].test) == 'field.tilt'
-          and not body[0].body[0].orelse and len(body[0].body[0].body) == 1
-          and ast.unparse(body[0].body[0].body[0]) == 'return True' and ast.unparse(body[1]) == 'return False')
-    if not ok: raise Refuse('_has_tilt: no longer `for field in wavefront.data: if field.tilt: return True` + `return False`')
-    return (f'/-- translated from `propagate.py:_has_tilt` (line {fn[0].lineno}): true iff SOME field of the wavefront has a non-empty tilt list;\n'
-            '`ntilt` = `len(field.tilt)` per field of `wavefront.data`, in order -/\n'
-            'def hasTilt (ntilt : List Int) : Bool :=\n  ntilt.foldr (fun n rest => if (decide (n ≠ (0 : Int))) then true else rest) false\n')
+    if not (len(body) == 2 and isinstance(body[0], ast.For) and isinstance(body[0].target, ast.Name) and not body[0].orelse
+            and isinstance(body[1], ast.Return) and isinstance(body[1].value, ast.Constant) and isinstance(body[1].value.value, bool)):
+        raise Refuse('_has_tilt: not a `for … : …` followed by `return <bool>`')
+    var = body[0].target.id
+    it = body[0].iter
+    lst = 'ntilt'
+    if isinstance(it, ast.Subscript) and ast.unparse(it.value) == 'wavefront.data' and isinstance(it.slice, ast.Slice) and it.slice.step is None:
+        lo = it.slice.lower.value if isinstance(it.slice.lower, ast.Constant) else (0 if it.slice.lower is None else None)
+        hi = it.slice.upper.value if isinstance(it.slice.upper, ast.Constant) else ('end' if it.slice.upper is None else None)
+        if lo is None or hi is None or lo < 0 or (hi != 'end' and hi < lo): raise Refuse('_has_tilt: slice of wavefront.data not constant')
+        lst = f'(ntilt.drop {lo})' if hi == 'end' else f'((ntilt.drop {lo}).take {hi - lo})'
+    elif ast.unparse(it) != 'wavefront.data': raise Refuse('_has_tilt: iterates over ' + ast.unparse(it))
+    if len(body[0].body) != 1 or not isinstance(body[0].body[0], ast.If) or body[0].body[0].orelse: raise Refuse('_has_tilt: loop body is not a single `if`')
+    cond = body[0].body[0]
+    t = cond.test
+    neg = False
+    if isinstance(t, ast.UnaryOp) and isinstance(t.op, ast.Not): neg = True; t = t.operand
+    if ast.unparse(t) != f'{var}.tilt': raise Refuse('_has_tilt: the test is not the truthiness of field.tilt')
+    test = '(decide (n = (0 : Int)))' if neg else '(decide (n ≠ (0 : Int)))'
+    if len(cond.body) != 1 or not isinstance(cond.body[0], ast.Return) or not isinstance(cond.body[0].value, ast.Constant) or not isinstance(cond.body[0].value.value, bool):
+        raise Refuse('_has_tilt: the `if` does not return a Boolean constant')
+    hit = 'true' if cond.body[0].value.value else 'false'
+    dflt = 'true' if body[1].value.value else 'false'
+    return (f'/-- translated from `propagate.py:_has_tilt` (line {fn[0].lineno}); `ntilt` = `len(field.tilt)` per field of `wavefront.data`, in order -/\n'
+            f'def hasTilt (ntilt : List Int) : Bool :=\n  {lst}.foldr (fun n rest => if {test} then {hit} else rest) {dflt}\n')
 
 def _guard_call(mod):
     """`propagate_fft` must start by refusing `_has_tilt(wavefront)` with NotImplementedError"""
@@ -96,7 +277,8 @@ def generate(repo):
     body, notes = _generate_scratch(repo)
     mod = ast.parse(open(os.path.join(repo, 'lentil/propagate.py')).read())
     _guard_call(mod)
-    return body + '\n' + _has_tilt(mod), notes + ['_has_tilt: structural translation of the any-field loop']
+    return (body + '\n' + _has_tilt(mod) + '\n' + '\n'.join(_wiring(mod)),
+            notes + ['_has_tilt: fold over the per-field tilt counts; propagate_fft wiring/guards/metadata and scratch_shape over an abstract scalar type'])
 
 def _guarded(fn):
     """any structural surprise while walking the source (missing attribute, index, key) is a refusal of the translator"""
@@ -110,5 +292,6 @@ def _guarded(fn):
     return wrapped
 
 MODULES = [
-    {'name': 'FftScratch', 'src': 'lentil/propagate.py', 'generator': _guarded(generate), 'props': ['C09']},
+    {'name': 'FftScratch', 'src': 'lentil/propagate.py', 'generator': _guarded(generate), 'props': ['C09'],
+     'imports': ['LentilVerif.Gen.PropagateMeta']},
 ]
